@@ -23,7 +23,7 @@ class Prop(SeqProp):
     pid = "C19"
     model = "generic"
     anchors = ["windpyutils/generic.py"]
-    quick_cases = 300
+    quick_cases = 1200
     thorough_cases = 3000
     rule = ("int_2_roman/roman_2_int on all of 1..3999 (exhaustive, every run); arg_sort on random key lists with ties in both "
             "directions; sub_seq/search_sub_seq/compare_pos_in_iterables on sequences over a 2-3 letter alphabet (thorough: all "
